@@ -52,6 +52,12 @@ func ruleR22(c *Ctx, prop string) {
 				roots = append(roots, v)
 			}
 		}
+	case "C11":
+		for _, nm := range []string{"Constant", "ConstantOfShape", "Cast"} {
+			if oi := c.opByName(nm); oi != nil {
+				roots = append(roots, oi.methods["Apply"], oi.methods["Init"])
+			}
+		}
 	case "C14", "C03":
 		for _, f := range c.libFns {
 			if fnPkgPath(f) == pkgOps && f.Parent() == nil && f.Object() != nil && f.Object().Exported() && strings.Contains(f.Name(), "roadcast") {
@@ -263,6 +269,12 @@ func ruleR21(c *Ctx, prop string) {
 				}
 			}
 		}
+		gateFields := map[string]bool{}
+		for _, m := range []string{"GetMaxInputs", "GetInputTypeConstraints", "GetMinInputs"} {
+			if f := c.returnsReceiverField(oi.methods[m]); f != "" {
+				gateFields[f] = true
+			}
+		}
 		key := "R21:attr-state:" + reg
 		apply := oi.methods["Apply"]
 		roots := []*ssa.Function{apply, oi.methods["ValidateInputs"]}
@@ -315,7 +327,14 @@ func ruleR21(c *Ctx, prop string) {
 					if !ok {
 						continue
 					}
-					// direct field assignment on the receiver
+					// direct field assignment on the receiver (attribute fields, and any other field: it is
+					// state the next Apply of this operator will see) — except the dynamic-arity fields the
+					// gate getters return (T6: Concat sets them from len(inputs) on every call)
+					if fa, ok := s.Addr.(*ssa.FieldAddr); ok && fa.X == recv && !initFields[fa.Field] && !gateFields[st.Field(fa.Field).Name()] {
+						nStores++
+						bad = fmt.Sprintf("%s stores into field %s of the operator while computing: the operator keeps state from one Apply to the next (a cache or memo makes results depend on earlier calls)", fname(f), st.Field(fa.Field).Name())
+						badSite = c.pos(s.Pos())
+					}
 					if fa, ok := s.Addr.(*ssa.FieldAddr); ok && fa.X == recv && initFields[fa.Field] {
 						nStores++
 						bad = fmt.Sprintf("%s assigns attribute field %s of the operator while computing: the next Apply of the same operator sees the value derived from this call's inputs, not the node's attribute", fname(f), st.Field(fa.Field).Name())
